@@ -294,4 +294,17 @@ example : ∃ wl, BIP39? = some wl := by
 
 example : SizeOK 16 4 12 ∧ SizeOK 32 8 24 := ⟨sizeOK_16, sizeOK_32⟩
 
+/-! ## unique decodability (corollary of the round trip) -/
+
+/-- two entropies (of any of the five sizes) never share a mnemonic -/
+theorem mnemonic_injective (sha256 : Bytes → Bytes) (hne : ∀ b, sha256 b ≠ []) (wl : WordList)
+    (hwl : BIP39? = some wl) (e₁ e₂ : Bytes)
+    (h₁ : e₁.length = 16 ∨ e₁.length = 20 ∨ e₁.length = 24 ∨ e₁.length = 28 ∨ e₁.length = 32)
+    (h₂ : e₂.length = 16 ∨ e₂.length = 20 ∨ e₂.length = 24 ∨ e₂.length = 28 ∨ e₂.length = 32)
+    (m : PyStr) (a₁ : bytesToMnemonic sha256 wl e₁ (8 * e₁.length) = some m)
+    (a₂ : bytesToMnemonic sha256 wl e₂ (8 * e₂.length) = some m) : e₁ = e₂ := by
+  obtain ⟨m₁, x₁, d₁⟩ := roundtrip sha256 hne wl hwl e₁ h₁
+  obtain ⟨m₂, x₂, d₂⟩ := roundtrip sha256 hne wl hwl e₂ h₂
+  rw [a₁] at x₁; rw [a₂] at x₂; cases x₁; cases x₂
+  rw [d₂] at d₁; exact (Option.some.inj d₁).symm
 end Buidl.Props.C14
